@@ -147,11 +147,8 @@ func (h *Header) Encode(body []byte) []byte {
 	}
 	binary.BigEndian.PutUint16(data[:2], id)
 	h.Property.BodyDayaLen = uint16(len(body)) // 消息的长度改为回复的body长度
-	if len(body) < 1000 {
-		h.Property.PacketFragmented = 0 // 不分包
-	} else {
-		//  需要把这个内容分多个包 ???目前感觉没必要 暂时不实现 因为下发的包都比较小
-	}
+	// 编码时不会写入消息包封装项(总包数 包序号) 所以分包标识必须清零 否则长度>=1000的body会生成无法解析的报文
+	h.Property.PacketFragmented = 0 // 不分包
 	binary.BigEndian.PutUint16(data[2:4], h.Property.encode())
 	if h.ProtocolVersion == consts.JT808Protocol2019 {
 		// 2019版本的标识
